@@ -20,6 +20,8 @@ package k8s
 //@   pure
 //@   ensures 0 <= result && result <= len(s) && (limit >= 0 ==> result <= limit) && (limit < 0 ==> result == 0)
 //@   loop 1 invariant 0 <= i && i <= len(s) && (limit >= 0 ==> i <= limit) && (limit < 0 ==> i == 0)
+//@   loop 1 iter-ensures 1 <= n && n <= i && (s[i - n] != '\\' ==> n == 1) && (s[i - n] == '\\' ==> n >= 2)
+//@   loop 1 iter-ensures s[i - n] == '\\' && i - n + 1 < len(s) && s[i - n + 1] == 'u' ==> n == 6
 
 // endsWithNewLine (C15): "the chunk ends with an escaped line feed" - the letter n in
 // front of the closing quote, preceded by an odd number of backslashes.  The loop
